@@ -93,6 +93,11 @@ fn closed_form_lm(p: &BTreeMap<String, String>, red: (f64, f64), lm: bool) -> Ex
     if demand_kind == "none" || demand_kind == "zero" {
         return Expect::Error;
     }
+    // the auxiliaries option that also declares the output of system 1 changes what is declared for the
+    // biomass / district mixes: only the generic clauses apply there
+    if p.get("aux").map(|s| s.as_str()) == Some("prop+out") && !matches!(mix, "joule" | "hp25" | "hp4" | "hp25_excluded" | "hp25_excluded2" | "red1" | "red2" | "biomass" | "dens") {
+        return Expect::NoClosedForm;
+    }
     if matches!(mix, "biomass+gas_noout" | "biomass+joule_noout") {
         return Expect::Error;
     }
@@ -102,7 +107,7 @@ fn closed_form_lm(p: &BTreeMap<String, String>, red: (f64, f64), lm: bool) -> Ex
         "hp25" => dsum * (1.0 - 1.0 / 2.5),
         "hp4" => dsum * 0.75,
         // ambient heat of a heat pump tagged as low SCOP is excluded (documented tag)
-        "hp25_excluded" => 0.0,
+        "hp25_excluded" | "hp25_excluded2" => 0.0,
         "solar25+gas" => 0.25 * dsum,
         "solar50+gas" => 0.5 * dsum,
         "solar75+gas" => 0.75 * dsum,
@@ -122,7 +127,7 @@ fn closed_form_lm(p: &BTreeMap<String, String>, red: (f64, f64), lm: bool) -> Ex
     // electric part: PV allocated to the non-auxiliary DHW electricity, per step
     let e_acs: Vec<f64> = match mix {
         "joule" => d.clone(),
-        "hp25" | "hp25_excluded" => d.iter().map(|x| x / 2.5).collect(),
+        "hp25" | "hp25_excluded" | "hp25_excluded2" => d.iter().map(|x| x / 2.5).collect(),
         "hp4" => d.iter().map(|x| x / 4.0).collect(),
         "red2_50+hp4_50" => d.iter().map(|x| x / 8.0).collect(),
         _ => vec![0.0; n],
@@ -159,6 +164,11 @@ impl StateCheck for C15 {
             return;
         }
         let mix = p.get("mix").cloned().unwrap_or_default();
+        // precondition "declared demand consistent with declared supply": the auxiliaries option that declares
+        // the whole demand as the output of system 1 is consistent only where system 1 supplies all of it
+        if p.get("aux").map(|s| s.as_str()) == Some("prop+out") && !matches!(mix.as_str(), "none" | "joule" | "hp25" | "hp4" | "hp25_excluded" | "hp25_excluded2" | "red1" | "red2" | "biomass" | "dens") {
+            return;
+        }
         let reds: Vec<(&str, Option<(f32, f32, f32)>, (f64, f64))> = if mix.starts_with("red") {
             vec![("default", None, (0.0, 1.3)), ("1,0,0", Some((1.0, 0.0, 0.0)), (1.0, 0.0)), ("0.5,0.5,0.1", Some((0.5, 0.5, 0.1)), (0.5, 0.5))]
         } else {
@@ -326,6 +336,7 @@ fn slots(d: &[f64], demand_kind: &'static str, rich: bool) -> Vec<Vec<Letter>> {
         m("hp25", vec![u(Some(1), "ACS", "ELECTRICIDAD", &cv(&sc(0.4))), u(Some(1), "ACS", "EAMBIENTE", &cv(&sc(0.6)))]),
         m("hp4", vec![u(Some(1), "ACS", "ELECTRICIDAD", &cv(&sc(0.25))), u(Some(1), "ACS", "EAMBIENTE", &cv(&sc(0.75)))]),
         m("hp25_excluded", vec![u(Some(1), "ACS", "ELECTRICIDAD", &cv(&sc(0.4))), com(u(Some(1), "ACS", "EAMBIENTE", &cv(&sc(0.6))), "BdC CTEEPBD_EXCLUYE_SCOP_ACS")]),
+        m("hp25_excluded2", vec![u(Some(1), "ACS", "ELECTRICIDAD", &cv(&sc(0.4))), com(u(Some(1), "ACS", "EAMBIENTE", &cv(&sc(0.6))), "BdC #1 (SCOP 2.0) CTEEPBD_EXCLUYE_SCOP_ACS")]),
         m("solar25+gas", vec![u(Some(1), "ACS", "TERMOSOLAR", &cv(&sc(0.25))), u(Some(2), "ACS", "GASNATURAL", &cv(&sc(0.75)))]),
         m("solar50+gas", vec![u(Some(1), "ACS", "TERMOSOLAR", &cv(&sc(0.5))), u(Some(2), "ACS", "GASNATURAL", &cv(&sc(0.5)))]),
         m("solar75+gas", vec![u(Some(1), "ACS", "TERMOSOLAR", &cv(&sc(0.75))), u(Some(2), "ACS", "GASNATURAL", &cv(&sc(0.25)))]),
@@ -365,13 +376,17 @@ fn slots(d: &[f64], demand_kind: &'static str, rich: bool) -> Vec<Vec<Letter>> {
         })
         .collect();
     // slot 3: auxiliaries of the DHW system 1 (proportional to its demand profile, or not)
-    let auxs: Vec<(&str, Vec<f64>)> = vec![("none", vec![]), ("prop", sc(0.1)), ("nonprop", { let mut v = vec![0.0; d.len()]; v[0] = 20.0; v })];
+    let auxs: Vec<(&str, Vec<f64>)> = vec![("none", vec![]), ("prop", sc(0.1)), ("nonprop", { let mut v = vec![0.0; d.len()]; v[0] = 20.0; v }), ("prop+out", sc(0.1))];
     let slot_aux = auxs
         .into_iter()
         .map(|(n, v)| {
             let mut l = vec![pline("aux", n), pline("auxv", fv(&v))];
             if !v.is_empty() {
                 l.push(a(Some(1), &cv(&v)));
+            }
+            if n == "prop+out" {
+                // the DHW output of system 1 declared too (needed when the system also has non-EPB uses)
+                l.push(o(1, "ACS", &cv(d)));
             }
             Letter::many(l)
         })
@@ -386,6 +401,7 @@ fn slots(d: &[f64], demand_kind: &'static str, rich: bool) -> Vec<Vec<Letter>> {
         mk("none", vec![], vec![]),
         mk("nepb_el", vec![com(u(Some(9), "NEPB", "ELECTRICIDAD", &cv(&vec![50.0; d.len()])), "BY")], vec![]),
         mk("nepb_gas", vec![com(u(Some(9), "NEPB", "GASNATURAL", &cv(&vec![50.0; d.len()])), "BY")], vec![]),
+        mk("nepb_el_same_system", vec![com(u(Some(1), "NEPB", "ELECTRICIDAD", &cv(&vec![50.0; d.len()])), "BY")], vec![]),
         mk("cal_gas", vec![com(u(Some(9), "CAL", "GASNATURAL", &cv(&sc(0.5))), "BY")], vec![]),
         mk("cal_biomass", vec![com(u(Some(9), "CAL", "BIOMASA", &cv(&vec![40.0; d.len()])), "BY")], vec![]),
         mk("ilu_el", vec![u(Some(9), "ILU", "ELECTRICIDAD", &cv(&vec![30.0; d.len()]))], vec![30.0; d.len()]),
